@@ -340,7 +340,12 @@ class BDDNonTerminalNode(BDDNode):
                 if succ.value:
                     repr.append('%s%s' % (neg, self.var))
             else:
-                repr.append('%s%s & %s' % (neg, self.var, succ))
+                succ_str = '%s' % (succ)
+                if succ_str.startswith('('):
+                    # succ is printed as a disjunction: keep it as a
+                    # whole inside the conjunction with self.var
+                    succ_str = '(%s)' % (succ_str)
+                repr.append('%s%s & %s' % (neg, self.var, succ_str))
 
         if len(repr) == 2:
             return '(%s) | (%s)' % (repr[0], repr[1])
